@@ -60,3 +60,13 @@ Lemma tie_safe_rspawn_report : forall (pre : list Z) (wstat : Z) (out : Bytes.by
   Z.of_nat (length out) < 2 ^ 31 -> (out = nil \/ last out 1%N = 0%N) ->
   option_map (fun r => K_rreport.v__oob (snd r)) (K_rreport.run (S (length out)) pre wstat (zs out) 0 (Z.of_nat (length out))) = Some 0.
 Proof. exact Gen_report.safe_rreport. Qed.
+(* safeput() and fmtqfn() with every array access checked *)
+From NQ Require Tie.Gen_names.
+Lemma tie_safe_safeput : forall (pre : list Z) (t : Bytes.bytes), bytes_ok t -> ~ In 0%N t -> Z.of_nat (length t) < 2 ^ 31 ->
+  option_map (fun r => K_safeput.v__oob (snd r)) (K_safeput.run (S (length t)) pre (zs t ++ (0 :: nil)) 0) = Some 0.
+Proof. exact Gen_names.safe_safeput. Qed.
+Lemma tie_safe_fmtqfn : forall (dir : Bytes.bytes) (id split : N) (flag : bool) (buf : list Z),
+  bytes_ok dir -> ~ In 0%N dir -> Z.of_nat (length dir) < 2 ^ 31 -> (id < 18446744073709551616)%N -> (0 < split < 2147483648)%N ->
+  (length (Gen_names.qfn dir id split flag) < length buf)%nat ->
+  option_map (fun r => K_fmtqfn.v__oob (snd r)) (K_fmtqfn.run (22 + length dir) buf 0 (zs dir ++ (0 :: nil)) 0 (Z.of_N id) (b2z flag) (Z.of_N split)) = Some 0.
+Proof. exact Gen_names.safe_fmtqfn. Qed.
